@@ -1,98 +1,148 @@
+/-!
+# Model of `conf/route_control.py` — `RouteController` (C20)
 
+State and the three netlink handlers, transcribed from the file *with the C20 repair applied*
+(`fix-C20.diff`: the unresolved-ARP cache keeps every waiting route; deleting a route that is still waiting
+removes it from that cache; the delete path names the Update module like the add path).
+
+* `neigh`    = `_neighbor_cache`               : next hop ↦ (gate_idx, route_count)  — keyed by next hop alone, as in the code
+* `pending`  = `_unresolved_arp_queries_cache` : the lists of all next hops flattened, arrival order kept
+* `gateCnt`  = `_module_gate_count_cache`      : per interface (per `<if>Routes` module), never decremented
+* `installed`, `mods` = what bessd holds after the commands the controller issued (all accepted):
+  entries of the `<if>Routes` lookup tables (with the route they were added for) and the Update modules
+  `<if>DstMAC<mac of nh>` with the output gate of `<if>Routes` connected to them
+* `kernel`, `known` are the environment: the kernel's routes and the next hops whose MAC the neighbour
+  table (NDB) has.  `RTM_NEWNEIGH` makes a MAC known and is delivered to the handler in the same step.
+
+Definitions only; the invariant and its proof are in `Upf/Proofs/Route.lean`.
+-/
 namespace Route
 
 structure R where
   pfx : Nat
   nh : Nat
-deriving DecidableEq
+  ifc : Nat
+deriving DecidableEq, Repr
+
+/-- the key of a route in bessd: which lookup module, which prefix -/
+def R.key (r : R) : Nat × Nat := (r.ifc, r.pfx)
 
 structure St where
-  kernel : List R                       -- ghost: what the kernel has
-  known : Nat → Bool                    -- ghost/env: next hops whose MAC is known
-  neigh : Nat → Option (Nat × Nat)      -- _neighbor_cache: nh ↦ (gate, route count)
-  pending : List R                      -- _unresolved_arp_queries_cache (repaired: all waiting routes)
-  gateCnt : Nat                         -- _module_gate_count_cache for the interface
-  installed : List (R × Nat)            -- BESS: routes in the lookup module with their gate
-  mods : Nat → Option Nat               -- BESS: MAC-rewrite module of a next hop, linked at this gate
+  kernel : List R
+  known : Nat → Bool
+  neigh : Nat → Option (Nat × Nat)
+  pending : List R
+  gateCnt : Nat → Nat
+  installed : List (R × Nat)
+  mods : Nat → Nat → Option Nat          -- interface → next hop → gate of `<if>Routes` linked to the module
+
+def init (known : Nat → Bool) : St :=
+  { kernel := [], known := known, neigh := fun _ => none, pending := [],
+    gateCnt := fun _ => 0, installed := [], mods := fun _ _ => none }
 
 def cnt (nh : Nat) (l : List (R × Nat)) : Nat := (l.filter (fun e => e.1.nh == nh)).length
 
+/-- `_add_neighbor`: gate from the cache entry of the next hop, else the interface's counter; the route goes
+into the lookup table; a new next hop gets its Update module, the two links, a cache entry and bumps the counter -/
 def addNeighbor (s : St) (r : R) : St :=
   match s.neigh r.nh with
   | some (g, c) =>
     { s with installed := (r, g) :: s.installed,
              neigh := fun x => if x = r.nh then some (g, c + 1) else s.neigh x }
   | none =>
-    { s with installed := (r, s.gateCnt) :: s.installed,
-             mods := fun x => if x = r.nh then some s.gateCnt else s.mods x,
-             neigh := fun x => if x = r.nh then some (s.gateCnt, 1) else s.neigh x,
-             gateCnt := s.gateCnt + 1 }
+    { s with installed := (r, s.gateCnt r.ifc) :: s.installed,
+             mods := fun i x => if i = r.ifc ∧ x = r.nh then some (s.gateCnt r.ifc) else s.mods i x,
+             neigh := fun x => if x = r.nh then some (s.gateCnt r.ifc, 1) else s.neigh x,
+             gateCnt := fun i => if i = r.ifc then s.gateCnt r.ifc + 1 else s.gateCnt i }
 
+/-- `add_new_route_entry`: MAC known → `_add_neighbor`; unknown → `_probe_addr` (repaired: append) -/
 def newRoute (s : St) (r : R) : St :=
   let s := { s with kernel := r :: s.kernel }
-  if s.known r.nh then addNeighbor s r else { s with pending := r :: s.pending }
+  if s.known r.nh then addNeighbor s r else { s with pending := s.pending ++ [r] }
 
+/-- `add_unresolved_new_neighbor` (repaired): every route waiting for this next hop is installed, in arrival order -/
 def newNeigh (s : St) (nh : Nat) : St :=
   let s' := { s with known := fun x => if x = nh then true else s.known x,
                      pending := s.pending.filter (fun r => r.nh != nh) }
   (s.pending.filter (fun r => r.nh == nh)).foldl addNeighbor s'
 
+/-- `delete_route_entry` (repaired): cached next hop → table entry removed, count decremented, at 0 the Update
+module (named from the route's interface, like the add path) and the cache entry go; next hop not cached → the
+route is dropped from the waiting list -/
 def delRoute (s : St) (r : R) : St :=
   let s := { s with kernel := s.kernel.erase r }
   match s.neigh r.nh with
   | some (g, c) =>
     let inst := s.installed.filter (fun e => e.1 != r)
     if c = 1 then
-      { s with installed := inst, mods := fun x => if x = r.nh then none else s.mods x,
+      { s with installed := inst,
+               mods := fun i x => if i = r.ifc ∧ x = r.nh then none else s.mods i x,
                neigh := fun x => if x = r.nh then none else s.neigh x }
     else
       { s with installed := inst, neigh := fun x => if x = r.nh then some (g, c - 1) else s.neigh x }
   | none => { s with pending := s.pending.erase r }
 
-/-- the invariant: controller caches, BESS state and kernel/neighbour facts agree -/
-structure Inv (s : St) : Prop where
-  kn   : s.kernel.Nodup
-  inst : ∀ r, r ∈ s.installed.map (·.1) ↔ (r ∈ s.kernel ∧ s.known r.nh = true)
-  instN : (s.installed.map (·.1)).Nodup
-  pend : ∀ r, r ∈ s.pending ↔ (r ∈ s.kernel ∧ s.known r.nh = false)
-  pendN : s.pending.Nodup
-  ngh  : ∀ nh, match s.neigh nh with
-               | some (g, c) => c = cnt nh s.installed ∧ 1 ≤ c ∧ g < s.gateCnt ∧ s.mods nh = some g ∧
-                                (∀ e ∈ s.installed, e.1.nh = nh → e.2 = g)
-               | none => cnt nh s.installed = 0 ∧ s.mods nh = none
-  gates : ∀ a b g h c d, s.neigh a = some (g, c) → s.neigh b = some (h, d) → a ≠ b → g ≠ h
-
-end Route
-
-namespace Route
-
-/-- "weak" invariant used while a batch of pending routes is being installed:
-    everything of Inv except the two iff's, which are re-established at the end -/
-structure W (s : St) : Prop where
-  instN : (s.installed.map (·.1)).Nodup
-  ngh  : ∀ nh, match s.neigh nh with
-               | some (g, c) => c = cnt nh s.installed ∧ 1 ≤ c ∧ g < s.gateCnt ∧ s.mods nh = some g ∧
-                                (∀ e ∈ s.installed, e.1.nh = nh → e.2 = g)
-               | none => cnt nh s.installed = 0 ∧ s.mods nh = none
-  gates : ∀ a b g h c d, s.neigh a = some (g, c) → s.neigh b = some (h, d) → a ≠ b → g ≠ h
-
-/-- events the kernel can deliver, with the kernel's own discipline as the envelope -/
+/-- events the kernel can deliver -/
 inductive Ev | newRoute (r : R) | delRoute (r : R) | newNeigh (nh : Nat)
-
-def Ev.ok (s : St) : Ev → Prop
-  | .newRoute r => r ∉ s.kernel
-  | .delRoute r => r ∈ s.kernel
-  | .newNeigh _ => True
+deriving Repr
 
 def step (s : St) : Ev → St
   | .newRoute r => newRoute s r
   | .delRoute r => delRoute s r
   | .newNeigh nh => newNeigh s nh
 
-inductive Reach : St → Prop
-  | init : Reach { kernel := [], known := fun _ => false, neigh := fun _ => none, pending := [],
-                   gateCnt := 0, installed := [], mods := fun _ => none }
-  | step {s e} : Reach s → e.ok s → Reach (step s e)
+def run (s : St) (evs : List Ev) : St := evs.foldl step s
+
+/-- The envelope (the kernel's own discipline and the deployment assumption), relative to `ifOf`, the interface
+on which a next hop is on-link: a new route leaves through its next hop's interface and its (interface, prefix)
+slot is free; only a route the kernel has is deleted; neighbour events are unconstrained (repeats allowed). -/
+def Ev.ok (ifOf : Nat → Nat) (s : St) : Ev → Prop
+  | .newRoute r => r.ifc = ifOf r.nh ∧ r.key ∉ s.kernel.map R.key
+  | .delRoute r => r ∈ s.kernel
+  | .newNeigh _ => True
+
+/-- a whole event sequence respects the envelope -/
+def Valid (ifOf : Nat → Nat) : St → List Ev → Prop
+  | _, [] => True
+  | s, e :: es => e.ok ifOf s ∧ Valid ifOf (step s e) es
+
+instance decOk (ifOf : Nat → Nat) (s : St) : (e : Ev) → Decidable (e.ok ifOf s)
+  | .newRoute r => inferInstanceAs (Decidable (r.ifc = ifOf r.nh ∧ r.key ∉ s.kernel.map R.key))
+  | .delRoute r => inferInstanceAs (Decidable (r ∈ s.kernel))
+  | .newNeigh _ => inferInstanceAs (Decidable True)
+
+instance decValid (ifOf : Nat → Nat) : (s : St) → (evs : List Ev) → Decidable (Valid ifOf s evs)
+  | _, [] => inferInstanceAs (Decidable True)
+  | s, e :: es => @instDecidableAnd _ _ (decOk ifOf s e) (decValid ifOf (step s e) es)
+
+/-- what the kernel holds / which MACs are known after the events, computed from the events alone -/
+def kernelStep (k : List R) : Ev → List R
+  | .newRoute r => r :: k
+  | .delRoute r => k.erase r
+  | .newNeigh _ => k
+
+def knownStep (kn : Nat → Bool) : Ev → Nat → Bool
+  | .newNeigh nh => fun x => if x = nh then true else kn x
+  | _ => kn
+
+inductive Reach (ifOf : Nat → Nat) : St → Prop
+  | init (known : Nat → Bool) : Reach ifOf (init known)
+  | step {s e} : Reach ifOf s → e.ok ifOf s → Reach ifOf (step s e)
+
+/-- the invariant: controller caches, bessd's module graph and kernel/neighbour facts agree -/
+structure Inv (ifOf : Nat → Nat) (s : St) : Prop where
+  kn   : s.kernel.Nodup
+  kif  : ∀ r ∈ s.kernel, r.ifc = ifOf r.nh
+  keyN : (s.kernel.map R.key).Nodup
+  inst : ∀ r, r ∈ s.installed.map (·.1) ↔ (r ∈ s.kernel ∧ s.known r.nh = true)
+  instN : (s.installed.map (·.1)).Nodup
+  pend : ∀ r, r ∈ s.pending ↔ (r ∈ s.kernel ∧ s.known r.nh = false)
+  pendN : s.pending.Nodup
+  ngh  : ∀ nh, match s.neigh nh with
+               | some (g, c) => c = cnt nh s.installed ∧ 1 ≤ c ∧ g < s.gateCnt (ifOf nh) ∧
+                                s.mods (ifOf nh) nh = some g ∧ (∀ e ∈ s.installed, e.1.nh = nh → e.2 = g)
+               | none => cnt nh s.installed = 0 ∧ s.mods (ifOf nh) nh = none
+  modsIf : ∀ i nh, i ≠ ifOf nh → s.mods i nh = none
+  gates : ∀ a b g h c d, s.neigh a = some (g, c) → s.neigh b = some (h, d) → a ≠ b → ifOf a = ifOf b → g ≠ h
 
 end Route
-
